@@ -1,5 +1,6 @@
 import Infretis.Lemmas.RunnerSys
 import Infretis.Props.C17Runner
+import Infretis.Model.RunnerSysX
 /-!
 # C17 (runner half, the runner's own code) — every submitted unit is executed exactly once, its
 result or exception is delivered exactly once whatever the completion order, and `stop()` returns
@@ -278,5 +279,257 @@ theorem future_list_call (fl : FL) (answers : List Bool) :
 
 example : flCall { futs := [5, 6, 7], scan := none } [false, false, false, false, true] = ({ futs := [5, 7], scan := none }, some (.ret 6), 5, [5, 6, 7, 5, 6])
     ∧ flCall { futs := [], scan := none } [true] = ({ futs := [], scan := none }, some .retNone, 0, []) := ⟨rfl, rfl⟩
+
+/-! ## the exception classes `_task_wrapper` does not handle (`Model/RunnerSysX.lean`)
+
+AUDIT NOTE (2026-09-30).  `Outcome.exc` above is an exception that `except Exception` catches and
+`Future.set_exception` accepts.  The theorems of this file were read as "failing units included" without
+that guard; on the real runner a unit that raises `SystemExit` / `KeyboardInterrupt` / `asyncio.CancelledError`
+/ any other non-`Exception`, or `StopIteration`, is NEVER delivered (witness run on the real aiorunner).
+`xrun_plain` states the exact guard, `base_exception_unit_lost` the behaviour outside it. -/
+section Unhandled
+open Infretis.RunnerSysX
+
+/-- unit `u` is lost: created, not queued, held by no worker, its future not done -/
+def Lost (s : Sys) (u : Nat) : Prop :=
+  u ∈ s.created ∧ u ∉ s.queue ∧ (∀ w : Nat, s.pcs[w]? ≠ some (WPc.awaiting u)) ∧ (∀ o, (u, o) ∉ s.done)
+
+theorem loopHead_lost {u w : Nat} {stopSet : Bool} {queue : List Nat} (hq : u ∉ queue) :
+    (loopHead w stopSet queue).1 ≠ WPc.awaiting u ∧ u ∉ (loopHead w stopSet queue).2.1 := by
+  unfold loopHead
+  split
+  · exact ⟨by simp, hq⟩
+  · cases queue with
+    | nil => exact ⟨by simp, by simp⟩
+    | cons h t =>
+      simp only [List.mem_cons, not_or] at hq
+      refine ⟨?_, hq.2⟩
+      simp only [ne_eq, WPc.awaiting.injEq]
+      exact fun e => hq.1 e.symm
+
+theorem set_lost {pcs : List WPc} {w : Nat} {p : WPc} {u : Nat} (hp : p ≠ WPc.awaiting u)
+    (h : ∀ w' : Nat, pcs[w']? ≠ some (WPc.awaiting u)) : ∀ w' : Nat, (pcs.set w p)[w']? ≠ some (WPc.awaiting u) := by
+  intro w'
+  rw [List.getElem?_set]
+  split
+  · split
+    · simp only [ne_eq, Option.some.injEq]; exact hp
+    · simp
+  · exact h w'
+
+theorem lost_fstep {s s' : Sys} {u : Nat} {e : FEv} {out} (hL : Lost s u) (h : fstep s e = some (s', out)) :
+    Lost s' u := by
+  obtain ⟨hc, hq, hp, hd⟩ := hL
+  cases e with
+  | submit u' =>
+    simp only [fstep, stepSubmit] at h
+    split at h
+    · rename_i hg
+      simp at h; obtain ⟨rfl, _⟩ := h
+      have hne : u' ≠ u := by
+        intro e; subst e
+        have := hg.2.2.1
+        simp at this
+        exact this hc
+      exact ⟨by simp [hc], by simp [hq]; exact fun e => hne e.symm, hp, hd⟩
+    · simp at h
+  | resume w o =>
+    simp only [fstep, stepResume] at h
+    split at h
+    · simp at h
+    · simp at h
+    · simp at h
+    · simp at h; obtain ⟨rfl, _⟩ := h
+      have := loopHead_lost (w := w) (stopSet := s.stopSet) hq
+      exact ⟨hc, this.2, set_lost this.1 hp, hd⟩
+    · rename_i u' hw
+      have hne : u' ≠ u := by intro e; subst e; exact hp w hw
+      split at h
+      · simp at h; obtain ⟨rfl, _⟩ := h
+        exact ⟨hc, hq, set_lost (by simp) hp, hd⟩
+      · simp at h; obtain ⟨rfl, _⟩ := h
+        have := loopHead_lost (w := w) (stopSet := s.stopSet) hq
+        refine ⟨hc, this.2, set_lost this.1 hp, ?_⟩
+        intro o' hm
+        simp only [List.mem_cons, Prod.mk.injEq] at hm
+        rcases hm with ⟨e, _⟩ | hm
+        · exact hne e.symm
+        · exact hd o' hm
+  | acEnter =>
+    simp only [fstep, stepAcEnter] at h
+    split at h
+    · simp only [flApply, Option.some.injEq] at h
+      split at h <;> (simp at h; obtain ⟨rfl, _⟩ := h; exact ⟨hc, hq, hp, hd⟩)
+    · simp at h
+  | acCheck =>
+    simp only [fstep, stepAcCheck] at h
+    split at h
+    · simp only [Option.map_eq_some_iff] at h
+      obtain ⟨r, _, h⟩ := h
+      simp only [flApply] at h
+      split at h <;> (simp at h; obtain ⟨rfl, _⟩ := h; exact ⟨hc, hq, hp, hd⟩)
+    · split at h
+      · split at h
+        · simp at h; obtain ⟨rfl, _⟩ := h; exact ⟨hc, hq, hp, hd⟩
+        · simp at h
+      · simp only [Option.map_eq_some_iff] at h
+        obtain ⟨r, _, h⟩ := h
+        simp only [flApply] at h
+        split at h <;> (simp at h; obtain ⟨rfl, _⟩ := h; exact ⟨hc, hq, hp, hd⟩)
+  | stopEnter =>
+    simp only [fstep, stepStopEnter] at h
+    split at h
+    · simp at h; obtain ⟨rfl, _⟩ := h; exact ⟨hc, hq, hp, hd⟩
+    · simp at h
+  | stopPollQ =>
+    simp only [fstep, stepPollQ] at h
+    split at h
+    · split at h <;> (simp at h; obtain ⟨rfl, _⟩ := h; exact ⟨hc, hq, hp, hd⟩)
+    · simp at h
+  | stopPollT =>
+    simp only [fstep, stepPollT] at h
+    split at h
+    · split at h <;> (simp at h; obtain ⟨rfl, _⟩ := h; exact ⟨hc, hq, hp, hd⟩)
+    · simp at h
+
+theorem lost_xstep {x x' : XSys} {u : Nat} {e : XEv} {out} (hL : Lost x.s u) (h : xstep x e = some (x', out)) :
+    Lost x'.s u := by
+  cases e with
+  | plain e =>
+    simp only [xstep] at h
+    split at h
+    · simp at h
+    · split at h
+      · simp at h
+      · rename_i s' o' hf
+        simp at h; obtain ⟨rfl, _⟩ := h
+        exact lost_fstep hL hf
+  | resumeBase w =>
+    simp only [xstep] at h
+    split at h
+    · simp at h
+    · split at h
+      · simp at h; obtain ⟨rfl, _⟩ := h
+        exact ⟨hL.1, hL.2.1, set_lost (by simp) hL.2.2.1, hL.2.2.2⟩
+      · simp at h
+  | resumeExit w =>
+    simp only [xstep] at h
+    split at h
+    · simp at h
+    · split at h
+      · simp at h; obtain ⟨rfl, _⟩ := h
+        exact ⟨hL.1, hL.2.1, set_lost (by simp) hL.2.2.1, hL.2.2.2⟩
+      · simp at h
+
+theorem lost_xrun : ∀ (evs : List XEv) {x x' : XSys} {u : Nat} {out}, Lost x.s u → xrun x evs = some (x', out) →
+    Lost x'.s u := by
+  intro evs
+  induction evs with
+  | nil => intro x x' u out hL h; simp [xrun] at h; obtain ⟨rfl, _⟩ := h; exact hL
+  | cons e t ih =>
+    intro x x' u out hL h
+    simp only [xrun] at h
+    cases h1 : xstep x e with
+    | none => rw [h1] at h; simp at h
+    | some r =>
+      obtain ⟨x1, o1⟩ := r
+      rw [h1] at h
+      simp only at h
+      cases h2 : xrun x1 t with
+      | none => rw [h2] at h; simp at h
+      | some r2 =>
+        obtain ⟨x2, o2⟩ := r2
+        rw [h2] at h
+        simp at h; obtain ⟨rfl, _⟩ := h
+        exact ih (lost_xstep hL h1) h2
+
+/-- **The exact guard of the runner theorems.**  A history in which every awaited unit comes back
+    with a result or with an exception that `except Exception` catches (no `resumeBase`, no
+    `resumeExit`) IS a history of `RunnerSys`: `sys_refines`, `sys_exactly_once`, `sys_no_crash`,
+    `sys_delivery`, `stop_terminates`, `stop_returns_clean` are statements about exactly these. -/
+theorem xrun_plain (evs : List FEv) (s : Sys) :
+    xrun { s := s } (evs.map XEv.plain) = (frun s evs).map (fun r => ({ s := r.1 }, r.2)) := by
+  induction evs generalizing s with
+  | nil => simp [xrun, frun]
+  | cons e t ih =>
+    simp only [List.map_cons, xrun, frun, xstep, Bool.and_false, Bool.false_eq_true, ↓reduceIte]
+    cases h1 : fstep s e with
+    | none => simp
+    | some r =>
+      obtain ⟨s1, o1⟩ := r
+      simp only
+      rw [ih s1]
+      cases h2 : frun s1 t with
+      | none => simp
+      | some r2 => simp
+
+example : xrun (xinit 1) ([FEv.submit 7, .resume 0 (.ok 0), .resume 0 (.exc 7)].map XEv.plain) =
+    (frun (RunnerSys.init 1) [.submit 7, .resume 0 (.ok 0), .resume 0 (.exc 7)]).map (fun r => ({ s := r.1 }, r.2)) :=
+  xrun_plain _ _
+
+/-- **A unit that raises a non-`Exception` is never delivered.**  In any reachable state of the
+    runner's system a worker `w` awaits unit `u`; the executor hands back an exception that is not
+    an `Exception` (`resumeBase`: CancelledError, other BaseException) or `SystemExit` /
+    `KeyboardInterrupt` (`resumeExit`).  Then, whatever happens afterwards — any interleaving, any
+    number of steps — the future of `u` is never done (so `as_completed()` never returns it: the
+    scheduler waits for ever), and the worker task is gone although the stop event was never set.
+    This is the code as it is (`except Exception` in `_task_wrapper`); it contradicts "delivers its
+    result or its exception exactly once … including failing tasks" for these exception classes. -/
+theorem base_exception_unit_lost (nw : Nat) (evs : List FEv) (s : Sys) (out : List Event) (w u : Nat)
+    (h : frun (RunnerSys.init nw) evs = some (s, out)) (hw : s.pcs[w]? = some (WPc.awaiting u))
+    (e : XEv) (he : e = .resumeBase w ∨ e = .resumeExit w) (rest : List XEv) (x' : XSys) (out' : List Event)
+    (hr : xrun { s := s } (e :: rest) = some (x', out')) :
+    (∀ o, (u, o) ∉ x'.s.done) ∧ u ∈ x'.s.created ∧ u ∉ x'.s.queue ∧
+    (∀ w' : Nat, x'.s.pcs[w']? ≠ some (WPc.awaiting u)) := by
+  obtain ⟨hcr, hnd, hnq, huniq⟩ := (sys_no_crash nw evs s out h).2.2 w u hw
+  simp only [xrun] at hr
+  cases h1 : xstep { s := s } e with
+  | none => rw [h1] at hr; simp at hr
+  | some r =>
+    obtain ⟨x1, o1⟩ := r
+    rw [h1] at hr
+    simp only at hr
+    cases h2 : xrun x1 rest with
+    | none => rw [h2] at hr; simp at hr
+    | some r2 =>
+      obtain ⟨x2, o2⟩ := r2
+      rw [h2] at hr
+      simp at hr; obtain ⟨rfl, _⟩ := hr
+      have hL1 : Lost x1.s u := by
+        have hpc : ∀ w' : Nat, (s.pcs.set w WPc.crashed)[w']? ≠ some (WPc.awaiting u) := by
+          intro w'
+          rw [List.getElem?_set]
+          split
+          · split <;> simp
+          · rename_i hne
+            intro hx
+            exact hne (huniq w' hx).symm
+        rcases he with rfl | rfl
+        · simp only [xstep, Bool.false_eq_true, ↓reduceIte, hw] at h1
+          simp at h1; obtain ⟨rfl, _⟩ := h1
+          exact ⟨hcr, hnq, hpc, hnd⟩
+        · simp only [xstep, Bool.false_eq_true, ↓reduceIte, hw] at h1
+          simp at h1; obtain ⟨rfl, _⟩ := h1
+          exact ⟨hcr, hnq, hpc, hnd⟩
+      have hL := lost_xrun rest hL1 h2
+      exact ⟨hL.2.2.2, hL.1, hL.2.1, hL.2.2.1⟩
+
+/-- concrete witness (1 worker, 2 units; the first raises `SystemExit`): nothing is ever delivered,
+    the second unit is never even taken, and `stop()` — had the scheduler reached it — would poll for ever -/
+theorem delivers_every_exception_counterexample :
+    ∃ x out, xrun (xinit 1) [.plain (.submit 1), .plain (.submit 2), .plain (.resume 0 (.ok 0)), .resumeExit 0] = some (x, out) ∧
+      x.s.created = [1, 2] ∧ x.s.done = [] ∧ x.s.queue = [2] ∧ x.s.pcs = [.crashed] ∧ x.loopDead = true ∧
+      xstep x (.plain (.resume 0 (.ok 0))) = none ∧ x.s.stopSet = false := by
+  refine ⟨_, _, rfl, ?_⟩
+  decide
+
+-- non-vacuity of `base_exception_unit_lost`: two workers, unit 1 comes back with a non-`Exception`, unit 2 completes
+example : ∃ s out x' out', frun (RunnerSys.init 2) [.submit 1, .submit 2, .resume 0 (.ok 0)] = some (s, out) ∧
+    s.pcs[0]? = some (WPc.awaiting 1) ∧
+    xrun { s := s } [.resumeBase 0, .plain (.resume 1 (.ok 0)), .plain (.resume 1 (.ok 5)), .plain .acEnter, .plain .acCheck,
+      .plain .acCheck] = some (x', out') ∧ x'.s.done = [(2, .ok 5)] ∧ x'.s.delivered = [(2, .ok 5)] ∧ x'.s.fl.futs = [1] :=
+  ⟨_, _, _, _, rfl, rfl, rfl, rfl, rfl, rfl⟩
+
+end Unhandled
 
 end Infretis.C17Sys
